@@ -7,7 +7,7 @@ use super::*;
 use crate::replay_protection::verif_kani::{any_window, rp_most_recent};
 use crate::token::PrivateConnectToken;
 use crate::verif_models::chacha as aead;
-use crate::NETCODE_CHALLENGE_TOKEN_BYTES;
+use crate::{NETCODE_CHALLENGE_TOKEN_BYTES, NETCODE_CONNECT_TOKEN_PRIVATE_BYTES};
 use std::net::{IpAddr, Ipv4Addr};
 
 fn reset_ghost(mode: u8) {
@@ -279,13 +279,8 @@ macro_rules! srv_resp_guard {
             let id_b: u64 = kani::any();
             let ud_b: u8 = kani::any();
             let ts: u64 = kani::any::<u32>() as u64;
-            let mut token_data = [0u8; NETCODE_CHALLENGE_TOKEN_BYTES];
+            let mut token_data = [ud_b; NETCODE_CHALLENGE_TOKEN_BYTES];
             token_data[..8].copy_from_slice(&id_b.to_le_bytes());
-            let mut i = 8;
-            while i < 8 + 256 {
-                token_data[i] = ud_b;
-                i += 1;
-            }
             let pkt = Packet::Response { token_sequence: ts, token_data };
             let mut dgram = [0u8; 400];
             reset_ghost(1);
@@ -311,6 +306,7 @@ macro_rules! srv_resp_guard {
                 aead::DEC_MODE = 3;
             }
             let connected_before = [facts[0].map(|f| f.0), facts[1].map(|f| f.0)];
+            let gs0 = s.global_sequence;
             let r = s.process_packet_internal(addr, &mut dgram[..n]);
             if let Ok(ServerResult::ClientConnected { client_id, addr: a, user_data, .. }) = &r {
                 assert!(*a == addr, "connected at another address than the pending session's");
@@ -320,11 +316,22 @@ macro_rules! srv_resp_guard {
                 assert!(connected_before[0] != Some(*client_id) && connected_before[1] != Some(*client_id), "duplicate client id in the connection table");
                 assert!(!($o0 && $o1), "connected although every slot was taken");
             }
+            let mut replied = false;
             if let Ok(ServerResult::PacketToSend { addr: a, payload }) = &r {
                 assert!(*a == addr && payload.len() < n, "reply to another address / amplification");
+                replied = true;
             }
             kani::cover!(matches!(r, Ok(ServerResult::ClientConnected { .. })), "connects");
             std::mem::forget(r);
+            if replied {
+                // a handshake reply (denied) sealed under the session key consumes the server-wide nonce
+                let ncalls = unsafe { aead::NCALLS };
+                let c = unsafe { aead::CALLS[if ncalls >= 1 && ncalls <= aead::REC_CAP { ncalls - 1 } else { 0 }] };
+                let mut nonce = [0u8; 24];
+                nonce[4..12].copy_from_slice(&gs0.to_le_bytes());
+                assert!(!c.decrypt && c.nonce == nonce, "handshake reply not sealed with the server-wide sequence");
+                assert!(s.global_sequence == gs0 + 1, "server-wide sequence not advanced after sealing a handshake reply (nonce reuse under the session key)");
+            }
             std::mem::forget(s);
         }
     };
@@ -384,11 +391,13 @@ fn srv_frame_connected() {
 }
 
 /// from a connected address, authentic traffic: payload attributed to that slot's id; disconnect frees exactly it
+macro_rules! srv_surface {
+    ($name:ident, $o0:expr, $k:expr) => {
 #[kani::proof]
 #[kani::unwind(40)]
-fn srv_surface() {
-    let (mut s, facts) = any_server([true, true]);
-    let k: usize = if kani::any() { 0 } else { 1 };
+fn $name() {
+    let (mut s, facts) = any_server([$o0, true]);
+    let k: usize = $k;
     let (id, addr) = facts[k].unwrap();
     let rkey = s.clients[k].as_ref().unwrap().receive_key;
     let pid = s.protocol_id;
@@ -424,6 +433,112 @@ fn srv_surface() {
     assert!(c.decrypt && c.key == rkey, "opened with another session's key");
     std::mem::forget(r);
     let _ = now;
+    if !kind {
+        // the disconnect freed exactly this client's slot
+        assert!(s.clients[k].is_none(), "client reported disconnected but still in the table");
+        if $o0 && k == 1 {
+            assert!(s.clients[0].is_some(), "another client's slot was cleared");
+        }
+    } else {
+        assert!(s.clients[k].is_some());
+    }
+    std::mem::forget(s);
+}
+    };
+}
+srv_surface!(srv_surface_11_k0, true, 0);
+srv_surface!(srv_surface_11_k1, true, 1);
+srv_surface!(srv_surface_01_k1, false, 1);
+
+
+// ---- C05: a connect token is bound to the first address that used it ---------------------------------------------
+macro_rules! tok_entry {
+    ($name:ident, $n:expr) => {
+        #[kani::proof]
+        #[kani::unwind(40)]
+        fn $name() {
+            let (mut s, _) = any_server([false, false]);
+            let mut macs = [[0u8; NETCODE_MAC_BYTES]; $n];
+            let mut addrs = [any_v4(); $n];
+            let mut i = 0;
+            while i < $n {
+                macs[i] = kani::any();
+                addrs[i] = any_v4();
+                s.connect_token_entries[i] = Some(ConnectTokenEntry { time: any_secs(), address: addrs[i], mac: macs[i] });
+                i += 1;
+            }
+            // stored macs pairwise distinct (invariant of the table)
+            if $n == 2 {
+                kani::assume(macs[0] != macs[1]);
+            }
+            let new_mac: [u8; NETCODE_MAC_BYTES] = kani::any();
+            let new_addr = any_v4();
+            let ok = s.find_or_add_connect_token_entry(ConnectTokenEntry { time: s.current_time, address: new_addr, mac: new_mac });
+            let mut known: Option<usize> = None;
+            let mut i = 0;
+            while i < $n {
+                if macs[i] == new_mac {
+                    known = Some(i);
+                }
+                i += 1;
+            }
+            match known {
+                Some(i) => {
+                    assert!(ok == (addrs[i] == new_addr), "a token already used from one address must be refused from any other, and accepted from its own");
+                    // the binding is never rewritten
+                    let mut j = 0;
+                    while j < $n {
+                        match &s.connect_token_entries[j] {
+                            Some(e) => assert!(e.mac == macs[j] && e.address == addrs[j], "token entry rewritten by a repeated / foreign request"),
+                            None => assert!(false, "token entry lost"),
+                        }
+                        j += 1;
+                    }
+                }
+                None => {
+                    assert!(ok, "fresh token refused");
+                    let mut found = false;
+                    let mut j = 0;
+                    while j < NETCODE_MAX_CLIENTS * 2 {
+                        if let Some(e) = &s.connect_token_entries[j] {
+                            if e.mac == new_mac {
+                                assert!(e.address == new_addr);
+                                found = true;
+                            }
+                        }
+                        j += 1;
+                    }
+                    assert!(found, "fresh token not recorded");
+                }
+            }
+            kani::cover!(known.is_some() && !ok, "foreign address refused");
+            std::mem::forget(s);
+        }
+    };
+}
+tok_entry!(tok_entry_n1, 1);
+tok_entry!(tok_entry_n2, 2);
+
+/// C05 / C07: a connection request whose private token does not authenticate changes NOTHING (no token entry,
+/// no pending session, no counter) and gets no answer
+#[kani::proof]
+#[kani::unwind(40)]
+fn srv_req_unauth() {
+    reset_ghost(2);
+    let (mut s, _) = any_server([true, false]);
+    let gs = s.global_sequence;
+    let cs = s.challenge_sequence;
+    let data: [u8; NETCODE_CONNECT_TOKEN_PRIVATE_BYTES] = kani::any();
+    let addr = any_v4();
+    let r = s.handle_connection_request(addr, kani::any(), kani::any(), kani::any(), kani::any(), data);
+    assert!(r.is_err(), "request with an unauthentic token accepted");
+    std::mem::forget(r);
+    assert!(s.global_sequence == gs && s.challenge_sequence == cs && s.pending_clients.is_empty(), "unauthentic request changed server state");
+    let mut j = 0;
+    while j < NETCODE_MAX_CLIENTS * 2 {
+        assert!(s.connect_token_entries[j].is_none(), "unauthentic request registered a token entry (can lock the genuine owner out)");
+        j += 1;
+    }
     std::mem::forget(s);
 }
 
